@@ -8,7 +8,7 @@ def run(ctx):
     vlib.build_harness(ctx)
     # (M) ring refines ghost, bounded exhaustive
     vlib.model_check(ctx, "MC_Stat", "MC_Stat.cfg" if q else "MC_Stat_thorough.cfg", workers=8 if q else 14,
-                     timeout=600 if q else 3000)
+                     timeout=1800 if q else 6000)
     vlib.check_goals(ctx, "MC_Stat", "MC_Stat_goals.cfg", ["GoalSlotReused", "GoalAllExpired", "GoalBoundaryWide"])
     # (S->I) every behaviour of the bounded model replayed on the real arrays
     beh = ctx.path("beh.jsonl")
